@@ -17,7 +17,8 @@
 EXTENDS Bytes, Integers
 
 (* ---------------- byte classes of 488.2 7.4 ---------------- *)
-IsWs(c)      == c = 32 \/ c = 9                 \* SP, TAB (other control bytes: unspecified)
+IsWs(c)      == c \in {32, 9, 13, 12}           \* SP, TAB, CR, FF: white space for 488.2 AND for the library; the other
+                                                \* control bytes (488.2 counts 00-08, 0B, 0E-1F too) stay unspecified
 IsMnemCh(c)  == IsAlnum(c) \/ c = 95
 IsSufCh(c)   == IsAlnum(c) \/ c = 45 \/ c = 47 \/ c = 46
 NL == 10
